@@ -15,6 +15,7 @@
 import OPModel.Proofs.PocketCurve
 import OPModel.Proofs.Profiles
 import OPModel.Proofs.RunMin
+import OPModel.Proofs.PocketExit
 import OPModel.Drive.C07
 
 namespace OP.C07
@@ -129,6 +130,26 @@ theorem runMin_greatest (l g : List Rat) (hg : List.Forall₂ (· ≤ ·) g l) (
     refine List.Forall₂.cons hah (runMinFrom_greatest h t g' hrest (List.pairwise_cons.mp hmono).2 ?_)
     intro x hx
     exact le_trans ((List.pairwise_cons.mp hmono).1 x hx) hah
+
+/-- **The exit search is exact and runs to the pinch row inclusive.**  `_pocket_exit_index` started at
+    row `i0` (opening value `h0`) with `n` rows to the pinch returns either the row just before the
+    FIRST row `k' ∈ 1..n` steps away (the pinch row is step `n`) whose value has dropped to `h0 - tol`
+    or below, every row passed over staying above `h0 - tol`; or, when no row up to and including the
+    pinch row drops, the pinch row itself.  (Seeded change C07-exit-search-skips-pinch-row shortens the
+    range by one: this statement is then false of the code.) -/
+theorem exit_search_spec (tol : Rat) (rows : List Row) (cH : Nat) (i0 pinch : Int) (above : Bool) (h0 : Rat) (e : Int)
+    (hh : cellAt rows cH i0 = .ok h0) (h : pocketExit tol rows cH i0 pinch above = .ok e) :
+    let n := (if above then pinch - i0 else i0 - pinch).toNat
+    (∃ k', 1 ≤ k' ∧ k' ≤ n ∧ e = stepRow above i0 k' - (if above then 1 else -1) ∧
+        (∃ hj, cellAt rows cH (stepRow above i0 k') = .ok hj ∧ hj + tol ≤ h0) ∧
+        ∀ m, 1 ≤ m → m < k' → ∃ hj, cellAt rows cH (stepRow above i0 m) = .ok hj ∧ h0 < hj + tol) ∨
+    (e = pinch ∧ ∀ m, 1 ≤ m → m ≤ n → ∃ hj, cellAt rows cH (stepRow above i0 m) = .ok hj ∧ h0 < hj + tol) := by
+  intro n
+  unfold pocketExit at h
+  simp only [hh, bind, Except.bind] at h
+  rcases pocketExit_go_spec tol rows cH i0 pinch above h0 n 1 e h with ⟨k', h1, h2, he, hd, hb⟩ | ⟨he, hall⟩
+  · exact Or.inl ⟨k', h1, by omega, he, hd, hb⟩
+  · exact Or.inr ⟨he, fun m h1 h2 => hall m h1 (by omega)⟩
 
 /-- **The breakpoint is exactly where the pocket closes.**  The temperature `closeInsert` inserts —
     `linear_interpolation(H[i₀], H[e], H[e±1], T[e], T[e±1])` — is the point of the GCC segment between
